@@ -473,6 +473,10 @@ class SP(Robot):
         self._top_joints_local = top_joints_copy
         self._bottom_joints_init = self._bottom_joints_local.conj().transpose()
         self._top_joints_init = self._top_joints_local.conj().transpose()
+        for i in range(6):
+            self._bottom_joint_angles_init[i] = rotation_transform @ self._bottom_joint_angles_init[i]
+            self._top_joint_angles_init[i] = rotation_transform @ self._top_joint_angles_init[i]
+        self.reorients = [rotation_transform @ t for t in self.reorients]
         self._bottom_joints_space = bottom_joints_space_new
         self._top_joints_space = top_joints_space_new
         self.move(old_base_pos)
